@@ -27,6 +27,8 @@ class VGen:
             return lambda i, w: e if w == 26 else o
         if kind == 'R':
             return lambda i, w: m.RED0 if i == 0 else m.RED
+        if kind == 'M':
+            return lambda i, w: 1 << 52
         if kind == 'N':
             return lambda i, w: (36028797018963664 if i == 0 else 36028797018963952) + 1
         if kind == 'U':
@@ -93,10 +95,11 @@ class VGen:
                     fes.append(to32(v).hex())
                     vs.append((v & vals.M255) % P)
                 else:
-                    md, limbs = vals.loose_limbs(rng, False, lambda i, w: 1 << 54 if name == 'avx2' else (1 << 52))
-                    # FieldElement2625x4::new splits 51-bit limbs at bit 26: the serial operand must fit 2^(26+26)=2^52? it
-                    # takes x >> 26 as u32, so limbs must be < 2^58; reduced serial elements (< 2^52) are what callers pass
-                    md, limbs = vals.loose_limbs(rng, False, lambda i, w: 1 << 52)
+                    # FieldElement2625x4::new "does not know that the FieldElement51s were fully reduced" and reduces the
+                    # split halves itself (x >> 26 must fit u32, i.e. limbs < 2^58); serial elements carry limbs up to
+                    # their own headroom 2^54 (lazy sums), so that is the admissible operand.  The IFMA constructor
+                    # copies 51-bit limbs into multiplier operands: [0, 2^52).
+                    md, limbs = vals.loose_limbs(rng, False, (lambda i, w: 1 << 54) if name == 'avx2' else (lambda i, w: 1 << 52))
                     fes.append(vals.limbs_tok(limbs))
                     vs.append(vals.limbs_value(limbs, False) % P)
             r = ctx.add(self.pfx + '.new', *fes, expect=self.check('new', vs, self.post_fn('new')), cls='vec:%s:new' % name, info='repr')
